@@ -106,7 +106,7 @@ def gen(ch):
         iw = ch.pick("inner.window", [None, (("gp", 1), None), (None, ("gp", T - 1)), (("gp", 2), ("gp", T)), (None, ("gp", 2))])
         if iw:
             s2, e2 = S.resolve_window(g, iw)
-            tgt = inner[ch.pick("inner.which", [0, 1])]
+            tgt = inner[ch.free("inner.which", [0, 1])]
             if s2:
                 tgt["start"] = s2
             if e2:
